@@ -22,6 +22,7 @@ pub mod c19;
 pub mod c20;
 pub mod pairs;
 pub mod util;
+pub mod walk;
 
 pub type PropResult = Result<(PropMeta, RunOutput), String>;
 
